@@ -10,6 +10,7 @@ import (
 	"strconv"
 	"strings"
 	"sync"
+	"time"
 
 	"pgregory.net/rapid"
 )
@@ -123,3 +124,75 @@ func DictSize() (int, int) {
 	dictOnce.Do(loadDict)
 	return len(dictInts), len(dictStrs)
 }
+
+// DictDurations returns the time constants that occur in the library's source as products with a time unit
+// (30 * time.Second, time.Duration(n) * time.Millisecond with a literal n, 2500 * time.Millisecond ...), sorted.
+func DictDurations() []time.Duration {
+	durOnce.Do(func() {
+		units := map[string]time.Duration{"Nanosecond": time.Nanosecond, "Microsecond": time.Microsecond, "Millisecond": time.Millisecond, "Second": time.Second, "Minute": time.Minute, "Hour": time.Hour}
+		seen := map[time.Duration]bool{}
+		filepath.Walk(repoRoot(), func(p string, info os.FileInfo, err error) error {
+			if err != nil {
+				return nil
+			}
+			if info.IsDir() && info.Name() == ".git" {
+				return filepath.SkipDir
+			}
+			if !strings.HasSuffix(p, ".go") || strings.HasSuffix(p, "_test.go") {
+				return nil
+			}
+			f, err := parser.ParseFile(token.NewFileSet(), p, nil, 0)
+			if err != nil {
+				return nil
+			}
+			unitOf := func(e ast.Expr) (time.Duration, bool) {
+				if sel, ok := e.(*ast.SelectorExpr); ok {
+					if x, ok := sel.X.(*ast.Ident); ok && x.Name == "time" {
+						u, ok := units[sel.Sel.Name]
+						return u, ok
+					}
+				}
+				return 0, false
+			}
+			var litOf func(e ast.Expr) (int64, bool)
+			litOf = func(e ast.Expr) (int64, bool) {
+				switch x := e.(type) {
+				case *ast.BasicLit:
+					if x.Kind == token.INT || x.Kind == token.FLOAT {
+						if v, err := strconv.ParseFloat(strings.ReplaceAll(x.Value, "_", ""), 64); err == nil {
+							return int64(v), true
+						}
+					}
+				case *ast.CallExpr: // time.Duration(30)
+					if len(x.Args) == 1 {
+						return litOf(x.Args[0])
+					}
+				case *ast.ParenExpr:
+					return litOf(x.X)
+				}
+				return 0, false
+			}
+			ast.Inspect(f, func(n ast.Node) bool {
+				if b, ok := n.(*ast.BinaryExpr); ok && b.Op == token.MUL {
+					for _, pair := range [][2]ast.Expr{{b.X, b.Y}, {b.Y, b.X}} {
+						if u, ok := unitOf(pair[1]); ok {
+							if v, ok := litOf(pair[0]); ok && v > 0 {
+								seen[time.Duration(v)*u] = true
+							}
+						}
+					}
+				}
+				return true
+			})
+			return nil
+		})
+		for d := range seen {
+			dictDurs = append(dictDurs, d)
+		}
+		sort.Slice(dictDurs, func(i, j int) bool { return dictDurs[i] < dictDurs[j] })
+	})
+	return dictDurs
+}
+
+var durOnce sync.Once
+var dictDurs []time.Duration
